@@ -925,6 +925,9 @@ class Engine:
         end_time = self.global_time + interval
         emit_time = self.global_time + self.emit_step
         if self.global_time_precision is not None:
+            # keep the end of the interval on the time grid as well, so
+            # that float error cannot leave it just beyond the last event
+            end_time = round(end_time, self.global_time_precision)
             emit_time = round(emit_time, self.global_time_precision)
 
         while self.global_time < end_time or force_complete:
@@ -999,10 +1002,10 @@ class Engine:
                     self.front[quiet]['time'] = self.global_time
                     self.front[quiet]['update'] = {}
 
-            elif self.global_time + full_step <= end_time:
+            elif self._next_time(full_step) <= end_time:
                 # at least one process ran within the interval
                 # increase the time, apply updates, and continue
-                self.global_time += full_step
+                self.global_time = self._next_time(full_step)
 
                 # advance all quiet processes to current time
                 for quiet in quiet_paths:
@@ -1043,6 +1046,15 @@ class Engine:
 
             if force_complete and self.global_time == end_time:
                 force_complete = False
+
+    def _next_time(self, full_step: float) -> float:
+        '''The global time after advancing by ``full_step``, kept on the
+        ``global_time_precision`` grid (``t + (f - t)`` need not equal
+        ``f`` in floating point).'''
+        next_time = self.global_time + full_step
+        if self.global_time_precision is not None:
+            next_time = round(next_time, self.global_time_precision)
+        return next_time
 
     @staticmethod
     def _end_process_if_parallel(process: Process) -> None:
